@@ -232,6 +232,31 @@ func handleFile(raw json.RawMessage) interface{} {
 				}
 			}
 		}
+		// (ii-b) the vector TILED into a file of more than two read blocks (ZnFile!ConcatLemma: decoding distributes over the
+		// concatenation of valid files), as it is and behind a byte-order mark
+		if c.OK && len(data) > 0 {
+			big, bigWant := tile(data, wantRaw)
+			for _, withBOM := range []bool{false, true} {
+				full := big
+				want := bigWant
+				if withBOM {
+					full = append([]byte{0xEF, 0xBB, 0xBF}, big...)
+				} else if c.BOM {
+					want = bigWant[1:]
+				}
+				os.WriteFile(path, full, 0644)
+				fs, _ := zio.NewFileStream(path)
+				got, gerr := fs.ReadAll()
+				runs++
+				if kk := kindOf(true, gerr != nil, want, got, false, false); kk != "" {
+					g := fmt.Sprintf("%d characters", len(got))
+					if gerr != nil {
+						g = "error: " + gerr.Error()
+					}
+					ms = append(ms, mism{"ReadAll@tiled", len(full), rep, kk, fmt.Sprintf("% x repeated to %d bytes, byte-order mark in front: %v", data, len(full), withBOM), fmt.Sprintf("%d characters", len(want)), g})
+				}
+			}
+		}
 		// (iii) ByteStream.ReadAll (no BOM handling: a BOM is an ordinary character there)
 		{
 			b := zio.NewByteStream(data)
